@@ -444,6 +444,36 @@ theorem ofTime_total_real (Y M D h mi s : Int) (hv : Civil.valid Y M D = true) (
   simp only [c0, if_false, eg0, e30, hsec, hg1, hg2]
   exact ⟨_, rfl⟩
 
+/-- C06 at instant level, TOTAL: every well-formed instant of the civil years 2..9998 belongs to exactly one solar term —
+`SolarTime::get_term` returns, the returned term's instant is at or before the instant, the next term's after it, and
+a representable term starts at or before the instant exactly when its index is at most the returned one. -/
+theorem C06_ofTime_total_real (Y M D h mi s : Int) (hv : Civil.valid Y M D = true) (hh : 0 ≤ h ∧ h ≤ 23) (hmi : 0 ≤ mi ∧ mi ≤ 59)
+    (hs : 0 ≤ s ∧ s ≤ 59) (hY1 : 2 ≤ Y) (hY2 : Y ≤ 9998) :
+    ∃ g, Term.ofTime realEph Y M D h mi s = some g ∧ 1 ≤ g ∧ g + 1 ≤ 239977 ∧
+      realEph.termSec g ≤ 86400 * jdn Y M D + 3600 * h + 60 * mi + s ∧
+      86400 * jdn Y M D + 3600 * h + 60 * mi + s < realEph.termSec (g + 1) ∧
+      ∀ g' : Nat, 1 ≤ g' → g' ≤ 239977 → (realEph.termSec g' ≤ 86400 * jdn Y M D + 3600 * h + 60 * mi + s ↔ g' ≤ g) := by
+  obtain ⟨g, hg⟩ := ofTime_total_real Y M D h mi s hv hh hmi hs hY1 hY2
+  obtain ⟨a1, a2, a3⟩ := C16_ofTime_spec realEph Y M D h mi s g hg
+  obtain ⟨b1, b2, g1, g2⟩ := term_of_time_bounds Y M D h mi s hv hh hmi hs hY1 hY2 g hg
+  have hg3 : g + 1 ≤ 239977 := by omega
+  have hn : 86400 * jdn Y M D + 3600 * h + 60 * mi + s < realEph.termSec (g + 1) := by
+    rcases a3 with h3 | h3
+    · have := (realEph_term_repr (g + 1) (by omega)).1 h3; omega
+    · exact h3
+  refine ⟨g, hg, g1, hg3, a2, hn, ?_⟩
+  intro g' h1 h2
+  constructor
+  · intro hle
+    by_cases hc : g' ≤ g
+    · exact hc
+    · exfalso
+      have := termSec_le (g + 1) g' (by omega) (by omega) h2
+      omega
+  · intro hle
+    have := termSec_le g' g h1 hle g2
+    omega
+
 /-- TOTALITY + RULE at instant level: every instant of the civil years a+1 .. b−1 of a tiling interval HAS an
 instant-level view, and it obeys `C08_time_spec` -/
 theorem C08_time_total (a b : Nat) (ha1 : 1 ≤ a) (hab : a + 1 ≤ b) (hb : b ≤ 9998) (ht : TilesOn realEph a b)
